@@ -77,6 +77,9 @@ func nonDefaultValue(f *schema.Field) *schema.V {
 
 // untyped converts v to the plain Go tree the untyped-value reader accepts.
 func untyped(v *schema.V) interface{} {
+	if v.Null {
+		return nil // the untyped tree's null
+	}
 	switch v.T.Base().Kind {
 	case schema.Int32:
 		return int32(v.I)
